@@ -17,6 +17,10 @@ CHECKS = {
  "C02": (EX, "lattice", "exhaustive enumeration of all ordered pairs of a structured point alphabet x projective representations against the affine addition law in math/big",
   "All ordered pairs of alphabet P (all of E[8], multiples of B, mixed torsion points, closed under negation) in several projective/limb representations, compared through Bytes() and ExtendedCoordinates().",
   "math/big; points outside alphabet P are not decided", "3 C02"),
+ "C03": (EX, "instr(ct)+ct+gdb",
+  "2-safety by exhaustive enumeration: every constant-time entry point is executed on every secret of a structured alphabet under a leakage-trace build generated from the working tree (source-to-source instrumentation injected with -overlay); all executions of one public-shape class must yield one identical trace; the amd64 assembly is single-stepped under gdb",
+  "45 entry points (the three constant-time multiplications with 0..3 terms, point arithmetic/comparison/encoding/import/export, table selection for every digit, all scalar and field operations incl. Select/Swap with both cond bits) x thousands of secrets (all recoder-transition witnesses, boundary scalars, torsion and mixed points in several representations, field forms and limb corners); the trace records every branch outcome, index, slice bound, shift count, div/mod operand, composite comparison and variable-time library call operand. Public shape = entry point, slice lengths, and the outcome of the documented zero-value test per Point argument. Run for the default and the purego build; feMul/feSquare assembly traced per instruction (pc, mnemonic, effective addresses).",
+  "source-level leakage model (compiler output and micro-architecture not observed); bits.*, crypto/subtle, encoding/binary trusted; VarTime functions and decoder accept/reject decisions exempt per the statement", "3 C03"),
  "C04": (EX, "lattice", "exhaustive enumeration of input-string sets (all small y, the whole top-of-range window, complete one-byte deviation balls, all lengths) against an Euler-criterion/ModSqrt oracle",
   "Accept/reject and the decoded point are compared with the model for every string of the enumerated sets (about half accepted, half rejected; all 19 non-canonical residues and the x=0 sign cases are inside).",
   "math/big; strings outside the enumerated sets are not decided", "3 C04"),
@@ -76,9 +80,7 @@ CHECKS = {
   "math/big; crypto/ecdh", "3 C17"),
 }
 
-NOT_YET = {
- "C03": "check under construction (leakage-trace self-composition); not claimed yet",
-}
+NOT_YET = {}
 
 def main():
     ids = [json.loads(l)["id"] for l in open(os.path.join(V, "properties.jsonl"))]
